@@ -31,7 +31,7 @@ RULE = ("junk lines: all %d strings of length <= 3 over the alphabet {. : \" ' -
         "with '~' and lines containing VERS/WRAP/DLM/NULL; sites: first/middle/last line position of every ~V, ~W, ~P and "
         "custom section (never ~C); counts 1..5 per file; bases: generated tagged files (v1.2 and v2.0) and readable corpus "
         "files; each (base, junk set) is read with and without ignore_header_errors. distinct = distinct (junk line, section "
-        "kind, position class, base kind); non-trivial = junk that is not blank/comment"
+        "kind, position class, base kind); non-trivial = junk that is not blank/comment Added later: every parsable junk line inserted 2-3 times, '%%' in the alphabet, floods of 6..300 junk lines in one section."
         % (sum(15 ** n for n in (1, 2, 3)), len(DOCUMENTED)))
 ASSUMPTIONS = [
     "a junk line that happens to parse becomes an additional item; genuine items must then still appear, unchanged and in order, as a subsequence",
